@@ -715,7 +715,7 @@ Section Hist.
   Qed.
 
   Definition hop_ok (h : hop) : Prop :=
-    match h with HOp o => op_pre U o ∧ no_prune o | HPoll _ => True end.
+    match h with HOp o => op_pre U o ∧ no_prune o | _ => True end.
 
   Record HInv (st : mgr * sub) : Prop := {
     H_inv : MInv U st.1;
@@ -725,12 +725,13 @@ Section Hist.
 
   Lemma hstep_inv st h : HInv st → hop_ok h → HInv (hstep U st h).
   Proof.
-    intros [HI HB HS] Hok. destruct st as [m s], h as [o|max]; cbn in *.
+    intros [HI HB HS] Hok. destruct st as [m s], h as [o|max|acc]; cbn in *.
     - destruct Hok as [Hpre Hnp]. split; cbn.
       + by apply (mstep_inv U HWF).
       + by apply AB_mstep.
       + by apply SubInv_mstep.
     - destruct (poll_ok U HWF m HI HB s max HS) as (s' & -> & HS' & _). by split.
+    - by split.
   Qed.
 
   Lemma hrun_from_inv hs : ∀ st, HInv st → Forall hop_ok hs → HInv (hrun_from U st hs).
@@ -752,7 +753,7 @@ Section Hist.
     induction hs as [|h hs IH]; intros [m s]; [done|].
     cbn [hrun_from fold_left mops_of flat_map]. rewrite fold_left_app.
     change (fold_left (hstep U) hs (hstep U (m, s) h)) with (hrun_from U (hstep U (m, s) h) hs).
-    rewrite IH. unfold mops_of. destruct h as [o|max]; cbn; [done|].
+    rewrite IH. unfold mops_of. destruct h as [o|max|acc]; cbn; [done| |done].
     by destruct (poll U m s max).
   Qed.
 
@@ -895,15 +896,19 @@ Section Hist.
   Qed.
 
   (** *** C04_notify_iff_tip_changed *)
-  Lemma notify_iff_tip_changed_hist hs o m' out nt :
-    ops_pre U (mops_of hs) → op_pre U o →
-    mstep U (hrun U hs).1 o = (m', out, nt) →
-    (nt = true ↔ tip m' ≠ tip (hrun U hs).1) ∧
-    (∀ s max, (hstep U ((hrun U hs).1, s) (HPoll max)).1 = (hrun U hs).1).
+  Lemma notify_iff_tip_changed_hist hs h :
+    ops_pre U (mops_of hs) → (∀ o, h = HOp o → op_pre U o) →
+    (hnotifies U (hrun U hs).1 h = true ↔ tip (hstep U (hrun U hs) h).1 ≠ tip (hrun U hs).1) ∧
+    ((∀ o, h ≠ HOp o) → (hstep U (hrun U hs) h).1 = (hrun U hs).1).
   Proof.
-    intros Hops Ho E. split.
-    - rewrite hrun_mgr in *. by eapply (notify_iff_tip_changed U HWF).
-    - intros s max. cbn. by destruct (poll U _ s max).
+    intros Hops Ho. split.
+    - destruct h as [o|max|acc]; cbn [hnotifies hstep].
+      + destruct (mstep U (hrun U hs).1 o) as [[m' out] nt] eqn:E. cbn.
+        rewrite hrun_mgr in *. eapply (notify_iff_tip_changed U HWF); eauto.
+      + split; [done|]. intros Hne. exfalso. apply Hne. by destruct (poll U _ _ max).
+      + split; [done|]. intros Hne. by exfalso.
+    - intros Hne. destruct h as [o'|mx|acc]; cbn [hstep]; [by destruct (Hne o')| |done].
+      by destruct (poll U _ _ mx).
   Qed.
 
   Lemma from_any_reached_index :
